@@ -243,6 +243,9 @@ def check(ctx):
     ctx.use(REL)
     hw_counter(ctx)
     tagged_counter(ctx)
+    from . import c31x
+
+    c31x.tag_shape_covers_tags(ctx)
     histogram(ctx)
     wrap_method_rule(ctx)
 
